@@ -112,3 +112,26 @@ SIGNATURES["D7-C05"] = sig_d7
 WITNESSES["D7-C05"] = wit_d7
 SIGNATURES["D8-C05"] = sig_d8_c05
 WITNESSES["D8-C05"] = wit_d8_c05
+
+RANDOMISED_LPS = ("softmax", "thompson", "popularity", "random", "lints")
+def sig_d13(info, t):
+    b = info.get("bandit")
+    if not b or not isinstance(t, dict) or not t.get("batch_size"):
+        return False
+    npk = (b.get("np") or ["none"])[0]
+    if npk not in ("radius", "knearest", "lsh"):
+        return False
+    lp = b["lp"]
+    rnd = lp[0] in RANDOMISED_LPS or (lp[0] in ("greedy", "lingreedy") and lp[1] > 0)
+    return rnd or npk in ("radius", "lsh")
+
+def wit_d13():
+    import relations as REL, random
+    t = {"arms": [1, 2], "ds": [1, 2] * 15, "rs": [float(i % 3 == 0) for i in range(30)], "cx": [[float(i % 5), float(i % 3)] for i in range(30)],
+         "bandits": [{"name": "b0", "lp": ("softmax", 1.0), "np": ("knearest", 3, "euclidean"), "seed": 5}],
+         "test_size": 0.5, "is_ordered": True, "batch_size": 5, "is_quick": True, "seed": 1}
+    ok, info = REL.run_c15(t)
+    return not ok
+
+SIGNATURES["D13-C15"] = sig_d13
+WITNESSES["D13-C15"] = wit_d13
